@@ -36,6 +36,8 @@ func vRuntime() *Runtime {
 
 func vResetRuntime() { vTheRuntime = nil }
 
+func init() { vResetHooks = append(vResetHooks, vResetRuntime) }
+
 // symbolic-mode replacements (listed in harness configs under "stubs")
 func vStubNewTypeError(r *Runtime, args ...interface{}) *Object { return vTypeErrorObj }
 func vStubTypeErrorResult(r *Runtime, throw bool, args ...interface{}) {
